@@ -22,7 +22,23 @@ var c11Queries = []string{
 	"SELECT a, `distinct=>dup` AS d FROM t WHERE a > ?",
 	"SELECT p FROM `mix=>t.items` WHERE p > ?",
 	"SELECT a, `items[0].p` AS p0, `dup[(0:1)]` AS d FROM t WHERE a > ?",
+	// joins with unmatched rows on either side, with and without aliases (from here: unwrapped only)
+	"SELECT * FROM t LEFT JOIN u ON t.a = u.a WHERE a > ?",
+	"SELECT * FROM t RIGHT JOIN u ON t.a = u.a WHERE a > ?",
+	"SELECT * FROM t LEFT JOIN u y ON a = y.a WHERE a > ?",
+	"SELECT * FROM t x RIGHT JOIN u ON x.a = a WHERE a > ?",
+	"SELECT * FROM t LEFT HASH_JOIN u ON a = w WHERE a > ?",
+	"SELECT * FROM t LEFT JOIN u ON a < w WHERE a > ?",
+	"SELECT * FROM t RIGHT JOIN u ON a < w WHERE a > ?",
+	"SELECT * FROM t JOIN u ON a = w WHERE a > ?",
+	"SELECT * FROM t STRAIGHT_JOIN u ON a = w WHERE a > ?",
+	"SELECT * FROM t LEFT JOIN u ON a = w INTO z WHERE a > ?",
+	"SELECT * FROM t x LEFT JOIN u y ON x.a = y.a INTO z WHERE x.a > ?",
+	"SELECT * FROM t PARALLEL LEFT JOIN u ON a = w WHERE a > ?",
+	"SELECT x.a AS k, y.w AS v FROM t x LEFT JOIN u y ON x.a = y.a WHERE x.a > ? ORDER BY k",
 }
+
+const c11FirstJoin = 19
 
 var faultAt, faultCalls int
 
@@ -51,6 +67,19 @@ func H_C11_readonly() {
 	doc, rows := nestedDoc(n, k)
 	for _, r := range rows {
 		r["dup"] = []any{r["a"], float64(1), r["a"], float64(2), float64(1), float64(3)}
+	}
+	if qi >= c11FirstJoin {
+		if wrapped == 1 || faultAt != 0 || k != 1 {
+			verif.Assume(false)
+		}
+		// a second table: one row with the first row's key, one unmatched row
+		// (w is the join key for the unaliased forms: an unaliased row is not
+		// wrapped, so its columns are addressed without a qualifier)
+		u := []any{Map{"a": float64(12345), "w": float64(12345)}}
+		if n > 0 {
+			u = append(u, Map{"a": rows[0]["a"], "w": rows[0]["a"]})
+		}
+		doc["u"] = u
 	}
 	snap := verif.Snapshot(doc)
 	c := verif.F64("c")
